@@ -15,6 +15,8 @@ let tag_name = function
   | TI_parent_black -> "I_parent_black" | TI_parent_red -> "I_parent_red"
   | TI_case1_L -> "I_case1_L" | TI_case2_L -> "I_case2_L" | TI_case3_L -> "I_case3_L"
   | TI_case1_R -> "I_case1_R" | TI_case2_R -> "I_case2_R" | TI_case3_R -> "I_case3_R"
+  | TI_case2_sub -> "I_case2_sub" | TI_case3_sub -> "I_case3_sub"
+  | TF_case3_sub -> "F_case3_sub" | TF_case4_sub -> "F_case4_sub"
   | TU_leaf_red -> "U_leaf_red" | TU_leaf_black -> "U_leaf_black"
   | TU_right_only -> "U_right_only" | TU_left_only -> "U_left_only"
   | TU_succ_child -> "U_succ_child" | TU_succ_deep -> "U_succ_deep"
